@@ -43,6 +43,9 @@ Proof. by rewrite /Q2F /int_of_Z /= mul0r. Qed.
 Lemma Q2F_half (R : numFieldType) : Q2F R (1 # 2)%Q = 2%:R^-1.
 Proof. by rewrite /Q2F /int_of_Z /= Pos2Nat.inj_1 mul1r. Qed.
 
+Lemma Q2F_mhalf (R : numFieldType) : Q2F R (-1 # 2)%Q = - 2%:R^-1.
+Proof. by rewrite /Q2F /int_of_Z /= Pos2Nat.inj_xO Pos2Nat.inj_1 mulNr mul1r. Qed.
+
 Section Instance.
 Variable R : realFieldType.
 
@@ -236,6 +239,19 @@ have -> : block_mx A B B^T C *m col_mx u x
     by rewrite /u mulmxN !mulmxA mulmxV // mul1mx addNr.
   by rewrite /u mulmxN !mulmxA mulmxBl addrC.
 by rewrite tr_col_mx mul_row_col mulmx0 add0r mulmxA.
+Qed.
+
+(* adding a PSD matrix to the leading block of a PSD block matrix keeps it PSD *)
+Lemma joint_psd n p (K0 S : 'M[R]_n) (B : 'M[R]_(p, n)) (C : 'M[R]_p) :
+  psd (block_mx K0 B^T B C) -> psd S -> psd (block_mx (K0 + S) B^T B C).
+Proof.
+move=> pK pS.
+have -> : block_mx (K0 + S) B^T B C = block_mx K0 B^T B C + block_mx S 0 0 0.
+  by rewrite add_block_mx !addr0.
+apply: psd_add => // z; rewrite /qform -(vsubmxK z).
+set u := usubmx z; set w := dsubmx z.
+rewrite -mulmxA mul_block_col !mul0mx !addr0 tr_col_mx mul_row_col mulmx0 addr0.
+by rewrite mulmxA; apply: pS.
 Qed.
 
 End Facts.
